@@ -125,6 +125,8 @@ def gen(chk, mpmath, rng):
                 if not struct_ok or len(cplx) % 2:
                     js.append({"j": "false"})
                 sig = "/pairs-share-|Im|" if len(set(b for _, b in pairs)) < len(pairs) else ""
+                if not sig and len(reals) + 2 * len(pairs) >= 6 and reals and min(abs(v) for v in reals if v) * 2 ** 30 < max(abs(v) for v in reals):
+                    sig = "/wide-spread,deg>=6"
                 yield ex.allj(*js), {"key": "polyroots/structure+residual" + sig, "reals": [str(r) for r in reals], "pairs": [[str(a), str(b)] for a, b in pairs], "p": p,
                                      "roots": [str(r) for r in roots], "pinned": pin["key"] if pin else None,
                                      "what": "polyroots: residual inconsistent with the error estimate, or real-first / adjacent-conjugates order violated"}
